@@ -279,6 +279,24 @@ def scale_sweep(crys, chem, sl, jn, d, inp, base, ks):
     return out
 
 
+SINGLE_LABELS = ("tet-edge2", "sq-edge2", "tet-x4", "sq-x4", "cub-x6", "hex-x6")
+
+
+def single_set_crystals():
+    from onsager import crystal
+    a = np.array
+    yield "tet-edge2", crystal.Crystal(np.diag([1., 1., 1.2]), [[a([0., 0, 0])], [a([.5, 0, 0]), a([0, .5, 0])]], chemistry=["M", "I"]), 1
+    yield "sq-edge2", crystal.Crystal(np.eye(2), [[a([0., 0])], [a([.5, 0]), a([0, .5])]], chemistry=["M", "I"]), 1
+    yield "tet-x4", crystal.Crystal(np.diag([1., 1., 1.2]), [[a([0., 0, 0])], [a([.3, 0, 0]), a([-.3, 0, 0]), a([0, .3, 0]), a([0, -.3, 0])]],
+                                    chemistry=["M", "I"]), 1
+    for nm in ("sq-x4", "cub-x6", "hex-x6"):
+        try:
+            crys, chem = gen.named(nm)
+        except KeyError:
+            continue
+        yield nm, crys, chem
+
+
 def random_input(nr, sl, jn, dim, spread):
     """spread: (site energy range, barrier range above the sites) in kT"""
     es, et = spread
@@ -315,10 +333,14 @@ def run(ck):
         for nm in fl[:ck.n(4, 6)]:
             crys, chem = gen.named(nm)
             yield nm + "~perm", gen.shuffled(crys, rng), chem
+        # always present: ONE Wyckoff set of 2 / 4 / 6 equally probable sites with differently oriented dipoles: the relaxation
+        # modes are then +-sqrt(rho_i) sign patterns ((1,-1)/sqrt2, (+,+,-,-)/2): same magnitudes as the equilibrium mode
+        for lab, crys, chem in single_set_crystals():
+            yield lab, (gen.shuffled(crys, rng) if rng.random() < 0.5 else crys), chem
         yield from gen.pool(rng, ncases, names=multi, random_frac=0.55, maxatoms=4)
     for label, crys, chem in source():
         try:
-            net = gen.percolating_network(crys, chem, rng)
+            net = gen.percolating_network(crys, chem, rng, **(dict(maxshell=8, maxjumps=200) if label in SINGLE_LABELS else {}))
         except Exception:
             skipped["construct-failed"] += 1; continue
         if net is None:
